@@ -88,6 +88,26 @@ def eval_parse(case):
             o.skipped = 'ambiguous-tokenisation'
         else:
             o.label('partly-determined-style')
+    # parsing into an object that already holds formatted text (set_ansi_str is the constructor's parser, public): the
+    # outcome is the one of a fresh construction, nothing of the earlier content survives
+    for old_text in ('qqqqqqqq', 'q', ''):
+        w = AnsiString(old_text, 'bold')
+        if len(old_text) > 2:
+            w.apply_formatting('bg_red', 1, len(old_text) - 1)
+            w.apply_formatting('italic', 2, None, topmost=False)
+        w.set_ansi_str(s)
+        try:
+            same = w.base_str == vals[0].base_str and per_char(w) == per_char(vals[0]) and w == vals[0] and str(w) == str(vals[0])
+            what = describe(w)
+        except Exception as e:
+            from vlib.core import lib_frame
+            if lib_frame(e)[0] != 'lib':
+                raise
+            same, what = False, '%s: %s' % (type(e).__name__, e)
+        if not same:
+            o.fail('reparse-depends-on-old-content', 'AnsiString(%r, bold ...).set_ansi_str(%r) -> %s; a fresh AnsiString(%r) is %s' % (
+                old_text, s, what, s, describe(vals[0])))
+            break
     if not (vals[0].base_str == vals[1].base_str and per_char(vals[0]) == per_char(vals[1])):
         o.fail('classes-differ', '%r: %s vs %s' % (s, describe(vals[0]), describe(vals[1])))
     nt = nseq >= 2
